@@ -1,10 +1,15 @@
-//! The repository's own test fonts, read from /repo's working tree at run time.
+//! The repository's own test fonts, read from /repo's working tree at run time: first the
+//! font-test-data corpus (small, purpose-built), then the real-world source fonts of klippa's
+//! test data (real hinting programs, large layout tables, bitmap and colour tables). The second
+//! group is appended so that indices of the first never change.
 
 use std::sync::OnceLock;
 
 pub struct CorpusFont {
     pub name: String,
     pub data: &'static [u8],
+    /// from klippa/test-data/fonts (real-world fonts) rather than font-test-data
+    pub extended: bool,
 }
 
 static CORPUS: OnceLock<Vec<CorpusFont>> = OnceLock::new();
@@ -13,7 +18,7 @@ pub fn corpus() -> &'static [CorpusFont] {
     CORPUS.get_or_init(|| {
         let mut v = Vec::new();
         let root = crate::core::repo_root();
-        for dir in [format!("{root}/font-test-data/test_data/ttf"), format!("{root}/font-test-data/test_data/ttc")] {
+        for (dir, extended) in [(format!("{root}/font-test-data/test_data/ttf"), false), (format!("{root}/font-test-data/test_data/ttc"), false), (format!("{root}/klippa/test-data/fonts"), true)] {
             let mut names: Vec<_> = std::fs::read_dir(dir)
                 .map(|rd| rd.filter_map(|e| e.ok()).map(|e| e.path()).collect())
                 .unwrap_or_default();
@@ -25,7 +30,10 @@ pub fn corpus() -> &'static [CorpusFont] {
                 }
                 if let Ok(bytes) = std::fs::read(&p) {
                     let name = p.file_name().unwrap().to_string_lossy().to_string();
-                    v.push(CorpusFont { name, data: Box::leak(bytes.into_boxed_slice()) });
+                    if v.iter().any(|f: &CorpusFont| f.name == name) {
+                        continue;
+                    }
+                    v.push(CorpusFont { name, data: Box::leak(bytes.into_boxed_slice()), extended });
                 }
             }
         }
